@@ -201,6 +201,7 @@ def gen_catalogue(seed):
         {"kind": "imports-both-order", "path": "/sim/w3m/f.m", "text": 'import "lib2.m" import "lib1.m" use uf : only1 , only2'},
         {"kind": "syntax-in-import", "path": "/sim/w3m/g.m", "text": 'import "bad.m" use ug : x'},
     ]
+    multi.append({"kind": "imports-lib1-boom", "path": "/sim/w3m/h.m", "text": 'import "lib1.m" def boom use uh : x'})
     lib["/sim/w3m/bad.m"] = "def x %"
     # search-path inputs: "lib.m" next to the importing file wins, otherwise the one on the search path
     lib["/sim/w3sp/proj1/lib.m"] = "def x = 1 def p1only"
@@ -334,18 +335,81 @@ def _ref_run(ctx):
     ctx.sample = out
 
 
+def _ref_cfg_run(ctx):
+    """Executed in a forked pristine child: every (input, mode) of ONE configuration, each on a fresh metamodel after
+    the process-global state has been reset.  (Quick tier: one fork per configuration instead of one per outcome -
+    fork() is serialised system-wide in this sandbox and takes seconds on a loaded machine.)"""
+    i = ctx.tape.values[0]
+    cfg = CAT["cfgs"][i]
+    outs = {}
+    for j, inp in enumerate(input_list(CAT, cfg)):
+        for mode in (0, 1):
+            core.reset_process_state()
+            mm = build_metamodel(cfg)
+            outs[f"{j}:{mode}"] = outcome_of(lambda: do_load(mm, inp["text"], "file" if mode else "str", j, inp))
+    ctx.sample = outs
+
+
+def _cache_path(seed):
+    """The reference table is input data of the history runs (a pure function of seed, tier and tree).  A helper
+    interpreter started by this check (--run-tape, --digests) reads the table its parent computed instead of forking
+    several hundred reference processes again."""
+    return os.environ.get("TVSIM_C16_REF")
+
+
 def prepare(seed):
     global CAT, REF
     CAT = gen_catalogue(seed)
     REF = {}
-    for i, cfg in enumerate(CAT["cfgs"]):
-        for j, inp in enumerate(input_list(CAT, cfg)):
-            for mode in (0, 1):
-                r = core.run_isolated(_ref_run, "C16", values=[i, j, mode])
-                if r.get("status") != "ok":
-                    raise RuntimeError(f"reference computation failed for {(i, j, mode)}: {r.get('err')}")
-                REF[(i, j, mode)] = r["sample"]
-    return {"configurations": len(CAT["cfgs"]), "reference_outcomes": len(REF)}
+    cp = _cache_path(seed)
+    if cp and os.path.exists(cp):
+        import json
+        with open(cp) as f:
+            d = json.load(f)
+        if d.get("seed") == seed and d.get("tier") == os.environ.get("VERIF_TIER"):
+            REF = {tuple(int(x) for x in k.split(":")): v for k, v in d["ref"].items()}
+            return {"configurations": len(CAT["cfgs"]), "reference_outcomes": len(REF), "from_parent": True}
+    out = _prepare(seed)
+    if not cp:
+        import json
+        import tempfile
+        fd, cp = tempfile.mkstemp(prefix="tvsim-c16-ref-", suffix=".json")
+        with os.fdopen(fd, "w") as f:
+            json.dump({"seed": seed, "tier": os.environ.get("VERIF_TIER"),
+                       "ref": {":".join(map(str, k)): v for k, v in REF.items()}}, f)
+        os.environ["TVSIM_C16_REF"] = cp
+        import atexit
+        atexit.register(lambda: os.path.exists(cp) and os.unlink(cp))
+    return out
+
+
+def _prepare(seed):
+    global REF
+    triples = [(i, j, mode) for i, cfg in enumerate(CAT["cfgs"]) for j, _ in enumerate(input_list(CAT, cfg))
+               for mode in (0, 1)]
+    thorough = os.environ.get("VERIF_TIER") == "thorough"
+    if thorough:
+        pristine = triples
+    else:
+        for i, cfg in enumerate(CAT["cfgs"]):
+            r = core.run_isolated(_ref_cfg_run, "C16", values=[i])
+            if r.get("status") != "ok":
+                raise RuntimeError(f"reference computation failed for configuration {i}: {r.get('err')}")
+            for k, out in r["sample"].items():
+                j, mode = k.split(":")
+                REF[(i, int(j), int(mode))] = out
+        # a sample of the outcomes is recomputed one by one in pristine children: they must agree
+        pristine = triples[3::max(1, len(triples) // 24)]
+    for (i, j, mode) in pristine:
+        r = core.run_isolated(_ref_run, "C16", values=[i, j, mode])
+        if r.get("status") != "ok":
+            raise RuntimeError(f"reference computation failed for {(i, j, mode)}: {r.get('err')}")
+        if not thorough and REF[(i, j, mode)] != r["sample"]:
+            raise RuntimeError(f"reference outcome of {(i, j, mode)} differs between a pristine process and the "
+                               f"per-configuration reference process: {_short(r['sample'])} vs {_short(REF[(i, j, mode)])}")
+        REF[(i, j, mode)] = r["sample"]
+    return {"configurations": len(CAT["cfgs"]), "reference_outcomes": len(REF),
+            "computed_one_by_one_in_pristine_processes": len(pristine)}
 
 
 # --------------------------------------------------------------------------
@@ -392,6 +456,11 @@ def run(ctx):
         inputs = input_list(CAT, cfg)
         j = t.draw(len(inputs), "input")
         mode = 1 if t.chance(1, 3, "from-file") else 0
+        earlier = [(h[3], 1 if h[4] == "file" else 0) for h in hist if h[0] == "load" and h[1] == slot and h[2] == ci]
+        if earlier and t.chance(1, 3, "repeat-an-earlier-load"):
+            # the same input again on the same metamodel (what a cache, a leftover or a stale entry would change)
+            j, mode = t.pick(earlier, "which-earlier-load")
+            ctx.probe("same-input-loaded-again")
         got = outcome_of(lambda: do_load(mm, inputs[j]["text"], "file" if mode else "str", j, inputs[j]))
         want = REF[(ci, j, mode)]
         oc = "ok" if "ok" in got else ("err:" + got["err"]["type"] if "err" in got else "exc:" + got["exc"]["type"])
@@ -429,16 +498,19 @@ def _short(o):
 
 
 RULES = {
-    "C16": "a catalogue of 12 metamodel configurations (2 grammar templates; memoization, autokwd, ignore_case, ws, "
-           "auto_init_attributes, tools support, regexp groups; 5 provider kinds incl. a postponing one; user classes of 6 "
-           "variants; recording / replacing / raising processors) x 8-12 inputs (valid, syntax error, dangling, ambiguous, "
-           "processor error) x {string, virtual file} is derived from VERIF_SEED; the reference outcome of every triple is "
-           "computed in a freshly forked pristine process; one run = a history of 4-24 operations (new metamodel, invalid "
-           "grammar, load) interleaved over 2-4 configurations; non-trivial = at least two loads; distinct = distinct "
+    "C16": "a catalogue of 19 metamodel configurations (2 grammar templates; memoization, autokwd, ignore_case, ws, "
+           "auto_init_attributes, tools support, regexp groups, global repository; 9 provider kinds incl. a postponing "
+           "one, import providers and a search-path provider; user classes of 6 variants; recording / replacing / raising "
+           "processors; 5 configurations are fixed whatever the seed) x 6-14 inputs (valid, syntax error, dangling, "
+           "ambiguous, processor error, multi-file) x {string, virtual file} is derived from VERIF_SEED; the reference "
+           "outcome of every triple is computed in a forked pristine process (thorough: one process per outcome; quick: "
+           "one process per configuration with the global state reset between outcomes, and a sample of 24 recomputed "
+           "one by one which must agree); one run = a history of 4-24 operations (new metamodel, invalid grammar, load, "
+           "the same load again) interleaved over 2-4 configurations; non-trivial = at least two loads; distinct = distinct "
            "histories; distinct (configuration, input, mode, outcome) triples reached are counted in coverage.distinct_sets",
 }
 ASSUMPTIONS = {
-    "C16": ["global_repository and debug metamodels are excluded on purpose (cached models / debug output are intended "
-            "history)", "every run starts from reset process-global state (grammar parser cache, registries); a "
+    "C16": ["debug metamodels are excluded on purpose (debug output is intended history); with a global repository a "
+            "cached reload returns the same object, its dump must still equal the fresh-process outcome", "every run starts from reset process-global state (grammar parser cache, registries); a "
             "violation is confirmed by replaying the history in a pristine forked process"],
 }
